@@ -14,7 +14,7 @@ RULE = ("oracle histories for the real Engine.price driven by a scripted couplin
         "fixed-level variant for max level 0..5. non-trivial = at least two passes or one level addition; distinct = distinct "
         "(configuration, history)")
 NOT_PROVED = ["numpy/scipy moment kernels (np.mean, scipy.stats.moment) are compared with the model's exact rational moments, not proved",
-              "control-variate adjusted arrays: same-shape bookkeeping compared by the C07 check, not modelled here",
+              "control-variate adjusted arrays are oracle-checked on the implementation (same rows as the raw arrays, Y - b*(X - price_X) per level and column), not part of the Lean model",
               "multi-process callback order is covered by C08; here nb_of_processes=1"]
 ASSUMPTIONS = ["the 1% rule is compared away from its float boundary (histories with 100*dN == N are not generated)"]
 TRUSTED = ["copy.deepcopy of the coupling process per level; numpy array assignment / np.pad"]
@@ -187,8 +187,60 @@ def one_history(ctx, L0, N0, level_max, hist, tag):
             ctx.fail("corr", "c05.model", desc, {"name": "Drivers/C05 final state vs Engine.price", "impl": r["final"]["Nl"], "model": end}, cls=cls)
 
 
+def cv_history(ctx, L0, N0, level_max, hist):
+    """with one control variate: the adjusted arrays have exactly the rows of the raw ones and hold Y - b*(X - price_X)
+    with the sample regression coefficient of the level, for the fine and the coarse column"""
+    from rpylib.product.payoff import Forward
+    from rpylib.product.product import Product, ControlVariates
+    from rpylib.product.underlying import Spot
+    desc = dict(L0=L0, N0=N0, level_max=level_max, control_variates=True, history=[[list(a), bool(b), list(c)] for a, b, c in hist])
+    cls = dict(kind="control_variates")
+    price_x = 3.25
+    cv = ControlVariates(products=[Product(payoff_underlying=Spot(), payoff=Forward(strike=1.5), maturity=fe.T, notional=2.0)], prices=[price_x])
+    with warnings.catch_warnings():
+        warnings.simplefilter("ignore")
+        with np.errstate(all="ignore"):
+            try:
+                r = fe.run_mlmc(hist, L0, N0, level_max, control_variates=cv)
+            except Exception as e:
+                ctx.fail("oracle", "c05.engine_raises", desc, {"what": f"{type(e).__name__}: {e}"}, cls=cls)
+                return
+    ctx.count("c05.cv_history", desc, nontrivial=len(r["reads"]) >= 1, branch="cv")
+    if r["final"] is None:
+        return
+    if not oracle_rows(ctx, "c05.rows_are_samples", desc, r["final"], r["log"], cls):
+        return
+    st = r["engine"].statistics
+    for l, ms in enumerate(st.mc_statistics):
+        Y = np.array(ms._payoff_statistics.stats, dtype=float)
+        A = np.array(ms._payoff_statistics_with_cv.stats, dtype=float)
+        X = np.array(ms._control_variates_statistics.stats, dtype=float)
+        n = Y.shape[0]
+        if A.shape != Y.shape or X.shape[0] != n:
+            ctx.fail("oracle", "c05.cv_rows", desc, {"what": "adjusted / control arrays do not have the rows of the raw array", "level": l,
+                                                    "raw": Y.shape, "adjusted": A.shape, "controls": X.shape}, cls=cls)
+            return
+        if n < 3:
+            continue
+        for col in (0, 1):
+            y = Y[:, 0, col]
+            x = (X[:, 0, 0, col] if X.ndim == 4 else X[:, 0, 0]) if not (l == 0 and col == 1) else np.zeros(n)
+            vx = float(np.var(x))
+            b = 0.0 if abs(vx) < 1e-12 else float(np.cov(x, y, bias=True)[0, 1] / vx)
+            exp_adj = y - b * (x - price_x)
+            if not np.allclose(A[:, 0, col], exp_adj, rtol=1e-9, atol=1e-9):
+                ctx.fail("oracle", "c05.cv_rows", desc, {"what": "adjusted rows are not Y - b*(X - price_X) over the simulated samples", "level": l,
+                                                        "column": col, "adjusted": A[:4, 0, col].tolist(), "expected": exp_adj[:4].tolist()}, cls=cls)
+                return
+
+
 def run(ctx):
     rng = ctx.rng
+    for _ in range(ctx.n(12, 200)):
+        level_max = rng.randint(1, 5)
+        L0 = rng.randint(0, min(2, level_max))
+        N0 = rng.choice([3, 5, 10, 20])
+        cv_history(ctx, L0, N0, level_max, gen_history(rng, L0, N0, level_max))
     for _ in range(ctx.n(120, 3000)):
         level_max = rng.randint(1, 8)
         L0 = rng.randint(0, min(4, level_max))
